@@ -61,3 +61,8 @@ Definition retransmit_reply (d : bytes) : bytes := [128; 214]%N ++ be16 (seq_of_
 
 (* position i is among the most recent [lim] of n datagrams sent *)
 Definition recent (lim n i : nat) : Prop := n - Nat.min n lim <= i < n.
+
+(* a reset() that forgets to clear padding_sent (for the refutation next to C16_next_stream_like_first) *)
+Definition stale_reset (s : st) (seq_new now : N) : st :=
+  {| s_seq := seq_new; s_head := now; s_pad := s_pad s; s_src := s_src s; s_reads := s_reads s;
+     s_backlog := s_backlog s; s_out := s_out s |}.
